@@ -39,6 +39,7 @@ def defaultOf (S : Schema) : Nat → Ty → Val
   | _ + 1, .bool => .bool false
   | _ + 1, .u32 => .int 0
   | _ + 1, .alg => .int 0
+  | _ + 1, .i64 => .int 0
   | _ + 1, .enum n => .enumv (((S.enum? n).bind (·.dflt)).getD "?")
   | fuel + 1, .struct n =>
     match S.struct? n with
@@ -67,15 +68,18 @@ def elemTy : Ty → Option Ty
   | .vec t => some t
   | _ => none
 
+/-- one field of the finished struct: what was seen for it, else its default, else an error -/
+def assembleField (S : Schema) (seen : List (String × Val)) (f : Field) : R (String × Val) :=
+  match seen.find? (·.1 == f.rust) with
+  | some kv => R.ok (f.rust, kv.2)
+  | none =>
+    if f.dflt then R.ok (f.rust, defaultOf S 8 f.ty)
+    else if isOpt f.ty && f.wrap == .plain then R.ok (f.rust, Val.none)
+    else R.err
+
 /-- fields in declaration order, from what was seen -/
 def assemble (S : Schema) (sd : StructDef) (seen : List (String × Val)) : R Val :=
-  (R.mapM (fun (f : Field) =>
-    match seen.find? (·.1 == f.rust) with
-    | some kv => R.ok (f.rust, kv.2)
-    | none =>
-      if f.dflt then R.ok (f.rust, defaultOf S 8 f.ty)
-      else if isOpt f.ty && f.wrap == .plain then R.ok (f.rust, Val.none)
-      else R.err) sd.fields).map (Val.record sd.name)
+  (R.mapM (assembleField S seen) sd.fields).map (Val.record sd.name)
 
 /-! ### what happens along a list, whatever the element parser is -/
 
@@ -122,6 +126,13 @@ mutual
       | .bool => (match j with | .bool b => .ok (.bool b) | _ => .err)
       | .u32 => .unmodelled
       | .alg => .unmodelled
+      | .i64 =>
+        (match j with
+         | .num s => (match WJson.ofToken s with
+            | .int v => if WJson.i64Min ≤ v ∧ v ≤ WJson.i64Max then .ok (.int v) else .err
+            | .unmodelled => .unmodelled
+            | _ => .err)
+         | _ => .err)
       | .enum n =>
         (match j with
          | .str s => (match (S.enum? n).bind (·.variantOf s) with | some v => .ok (.enumv v) | none => .err)
